@@ -3,10 +3,10 @@ CONSTANTS
   N = 3
   RF = 3
   MaxRep = 4
-  Admins = FALSE
+  Admins = TRUE
   KeepMax = TRUE
 VIEW View
 CONSTRAINT Bound
-INVARIANTS Sound Complete RestartNoRegress PersistDurable MemAboveW EmitStale
+INVARIANTS Sound Complete RestartNoRegress PersistDurable MemAboveW
 PROPERTY Monotone
 CHECK_DEADLOCK FALSE
